@@ -5,6 +5,7 @@ package calcium
 
 import (
 	"context"
+	"fmt"
 	"time"
 
 	"github.com/panjf2000/ants/v2"
@@ -15,6 +16,16 @@ import (
 )
 
 //verif:zeropkg github.com/panjf2000/ants/v2
+
+// vRandomString replaces crypto/rand based names by a counter (uniqueness is all that matters).
+//
+//verif:stub github.com/projecteru2/core/utils.RandomString
+func vRandomString(n int) string {
+	vRandN++
+	return fmt.Sprintf("r%d", vRandN)
+}
+
+var vRandN int
 
 // vPoolInvoke: under gosym a pool task runs to completion at the Invoke call
 // (natively the real ants pool runs it in a goroutine).
